@@ -63,6 +63,12 @@ def id_scheme(parent, k):
     """ids need to be unique among siblings only.  k % 3 = 0: all different; 1: the position among the siblings ('c0', 'c1',
     ...: every path repeats ids, a child is named like the root); 2: a first child is named like its parent"""
     n = len(parent)
+    if k % 7 == 3:
+        # database keys counted from 0: some node's id is 0 -- falsy, and a perfectly good id (the root's when k is odd,
+        # else its first child's)
+        return list(range(n)) if k % 2 else [n] + list(range(n - 1))
+    if k % 7 == 5:
+        return (['', 'k1'] if k % 2 else ['k0', '']) [:n] + ['k%d' % i for i in range(2, n)]      # ... or the empty string
     if k % 3 == 0:
         return None
     ids, seen = [], {}
